@@ -1,6 +1,7 @@
 //! Correspondence harness: runs the litep2p implementation on generated / stored cases and
 //! prints one canonical trace per case in the "list of N" wire format of coq/common/Wire.v.
 mod c17;
+mod c20;
 mod util;
 
 fn main() {
@@ -13,6 +14,7 @@ fn main() {
     util::silence_panics();
     match argv[1].as_str() {
         "c17" => c17::main(&args),
+        "c20" => c20::main(&args),
         other => {
             eprintln!("unknown property {other}");
             std::process::exit(2);
